@@ -233,7 +233,11 @@ func trackCase(c *vlib.Ctx, i int, r *vlib.Rand) {
 			idx := fm.find(kk[r.Intn(len(kk))])
 			fm.Items[idx].Val = ""
 			fm.Items[idx].Text = refEncodeKey(fm.Items[idx].Key) + []string{"=", " = ", "=  "}[r.Intn(3)]
-		case x < 11 && clean && e < nEdits:
+		case x < 11 && clean && e < nEdits && lastReloadTime.UnixNano() != 0:
+			// (not after a version with the epoch as modification time was loaded: golib's
+			// marker for "file missing" is that very number, see the known finding
+			// epoch-mtime-after-file-missing — the removal would go unnoticed and the rest of
+			// the history could not be labelled)
 			op = "remove-file-then-recreate"
 		default:
 			op = "rewrite"
